@@ -12,3 +12,115 @@ Definition mmul16 := mmul fmul.
 (* Matrix.Times with its dimension panic *)
 Definition Times16_checked (k cols : nat) (A X : list (list N)) : outcome (list (list N)) :=
   if negb (Nat.eqb (length X) k) then Panic PExplicit else Ok (Times16 cols A X).
+
+(** * rsec16: constants, parity matrices *)
+
+(* generators: 2^i for i = 0..65535 with i not divisible by 3, 5, 17, 257 (coder.go init) *)
+Definition bad_exp (i : N) : bool :=
+  (i mod 3 =? 0) || (i mod 5 =? 0) || (i mod 17 =? 0) || (i mod 257 =? 0).
+Fixpoint gens (fuel : nat) (i : N) (count : nat) : list N :=
+  match count with
+  | O => []
+  | S c' =>
+      match fuel with
+      | O => []
+      | S f => if bad_exp i then gens f (i + 1) count else T_Pow 2 i :: gens f (i + 1) c'
+      end
+  end.
+(* the whole table, as init() builds it, and its first `count` entries *)
+Definition all_generators : list N := gens (N.to_nat 65536) 0 (N.to_nat 65536).
+Definition generators_first (count : nat) : list N := firstn count all_generators.
+Definition GENERATOR_COUNT : Z := 32768.
+
+(* newVandermondeMatrix(parity, data, generators[j]) : a[i][j] = g_j ^ i *)
+Definition vandermonde_pm (d p : nat) : list (list N) :=
+  let gs := generators_first d in
+  map (fun i => map (fun g => T_Pow g (N.of_nat i)) gs) (seq 0 p).
+(* newCauchyMatrix(parity, data, x_i = d+i, y_j = j) : a[i][j] = 1/(x_i + y_j) *)
+Definition cauchy_pm (d p : nat) : list (list N) :=
+  map (fun i => map (fun j => gf_inv (N.lxor (N.of_nat (d + i)) (N.of_nat j))) (seq 0 d)) (seq 0 p).
+
+Inductive ckind := Cauchy | PAR2Vandermonde.
+Record coder := { c_data : nat; c_parity : nat; c_pm : list (list N) }.
+
+Definition new_coder (k : ckind) (d p g : Z) : outcome coder :=
+  if (d <=? 0)%Z then Panic PExplicit
+  else if (p <=? 0)%Z then Panic PExplicit
+  else if (g <=? 0)%Z then Panic PExplicit
+  else
+    let dn := Z.to_nat d in let pn := Z.to_nat p in
+    match k with
+    | Cauchy =>
+        if (65535 <? d + p)%Z then Err EOther
+        else Ok {| c_data := dn; c_parity := pn; c_pm := cauchy_pm dn pn |}
+    | PAR2Vandermonde =>
+        if (GENERATOR_COUNT <? d)%Z then Err EOther
+        else if (65535 <? p)%Z then Err EOther
+        else Ok {| c_data := dn; c_parity := pn; c_pm := vandermonde_pm dn pn |}
+    end.
+
+(** * GenerateParity / ReconstructData on shards of 16-bit words *)
+
+Notation shard := (list N) (only parsing).
+
+(* applyMatrix: out_i = xor_j m[i][j] * in_j *)
+Definition apply_matrix (len : nat) (m : list (list N)) (ins : list shard) : list shard :=
+  mmul16 len m ins.
+
+Definition shard_len (l : list shard) : nat := length (hd [] l).
+
+Definition gen_parity (c : coder) (data : list shard) : list shard :=
+  apply_matrix (shard_len data) (c_pm c) data.
+
+Fixpoint somes {A} (l : list (option A)) : list A :=
+  match l with [] => [] | Some x :: r => x :: somes r | None :: r => somes r end.
+Fixpoint count_none {A} (l : list (option A)) : nat :=
+  match l with [] => O | Some _ :: r => count_none r | None :: r => S (count_none r) end.
+(* the entries of v at the positions where l is Some / None *)
+Fixpoint pick_some {A B} (l : list (option A)) (v : list B) : list B :=
+  match l, v with
+  | Some _ :: l', x :: v' => x :: pick_some l' v'
+  | None :: l', _ :: v' => pick_some l' v'
+  | _, _ => []
+  end.
+Fixpoint pick_none {A B} (l : list (option A)) (v : list B) : list B :=
+  match l, v with
+  | Some _ :: l', _ :: v' => pick_none l' v'
+  | None :: l', x :: v' => x :: pick_none l' v'
+  | _, _ => []
+  end.
+(* the first `need` available parity shards with their row numbers *)
+Fixpoint used_parity {A} (need i : nat) (parity : list (option A)) : list (nat * A) :=
+  match need, parity with
+  | O, _ => []
+  | _, [] => []
+  | S n', Some s :: r => (i, s) :: used_parity n' (S i) r
+  | S _, None :: r => used_parity need (S i) r
+  end.
+Fixpoint fill {A} (data : list (option A)) (rec : list A) : list A :=
+  match data with
+  | [] => []
+  | Some x :: r => x :: fill r rec
+  | None :: r => match rec with y :: rec' => y :: fill r rec' | [] => [] end
+  end.
+
+Definition unit_row (n i : nat) : list N := map (fun j => if Nat.eqb i j then 1 else 0) (seq 0 n).
+
+Definition reconstruct (c : coder) (data parity : list (option shard)) : outcome (list shard) :=
+  let input_d := somes data in
+  let missing := count_none data in
+  if Nat.eqb missing 0 then Ok input_d
+  else
+    let used := used_parity missing 0 parity in
+    if Nat.ltb (length input_d + length used) (c_data c) then Err ENotEnoughParity
+    else
+      let q := length used in
+      let m := map (fun ks : nat * shard => pick_none data (nth (fst ks) (c_pm c) [])) used in
+      let n := map (fun iks : nat * (nat * shard) => pick_some data (nth (fst (snd iks)) (c_pm c) []) ++ unit_row q (fst iks))
+                   (combine (seq 0 q) used) in
+      do R <- RowReduce16 m n;
+      let input := input_d ++ map (fun ks : nat * shard => snd ks) used in
+      Ok (fill data (apply_matrix (shard_len input) R input)).
+
+Definition erase {A} (keep : list bool) (l : list A) : list (option A) :=
+  map (fun kx : bool * A => if fst kx then Some (snd kx) else None) (combine keep l).
